@@ -39,9 +39,10 @@ def standard(prop, spec, tier, seed, keep=False, replay=None):
             leaks = spec.get("leaks", False) and config == "asan"
             supp = os.path.join(vlib.VERIF, "supp", "tsan.supp")
 
-            def env_fn(d, leaks=leaks):
+            def env_fn(d, leaks=leaks, opts=opts):
                 e = vlib.san_env(d, leaks=leaks, tsan_supp=supp if os.path.exists(supp) else None)
                 e.update(spec.get("env", {}))
+                e.update(opts.get("env", {}))
                 return e
             extra = list(spec.get("args", ())) + list(opts.get("args", ()))
             only = None
